@@ -71,3 +71,49 @@ func ZZ_C07_ParEquiv() {
 		}
 	}
 }
+
+// ZZ_C07_Lines: texts built from L lines, each one of {"", "a", "aaa"} (alpha=0) or {"", "a", "!aa"} (alpha=1: with error lines) x {LF, CRLF}
+// (the last line optionally without line ending), so that chunk boundaries fall at
+// every position relative to blank lines and CR LF pairs in texts that are longer
+// than the arbitrary-bytes bound of ZZ_C07_ParEquiv.
+func ZZ_C07_Lines() {
+	L := zz.Param("L")
+	w := zz.Param("w")
+	text := ""
+	for i := 0; i < L; i++ {
+		if zz.Param("alpha") == 1 {
+			text += []string{"", "a", "!aa"}[zz.Choose(3)]
+		} else {
+			text += []string{"", "a", "aaa"}[zz.Choose(3)]
+		}
+		text += []string{"\n", "\r\n"}[zz.Choose(2)]
+	}
+	if zz.Param("open") == 1 {
+		text += []string{"", "a", "\r"}[zz.Choose(3)]
+	}
+	serial := SerialParser[string]{ParseOne: zzStubParse}
+	sv, sb, se := serial.Parse(text)
+	par := ParallelBatchParser[string]{SerialParser: serial, NumberOfWorkers: w}
+	zzInstallSchedule(zz.DeliveryOrder())
+	pv, pb, pe := par.Parse(text)
+	zz.Observe("serial-values", len(sv))
+	zz.Observe("serial-errors", len(se))
+	zz.Assert(len(pv) == len(sv), "same-number-of-values")
+	zz.Assert(len(pe) == len(se), "same-number-of-errors")
+	if len(pv) == len(sv) {
+		same := true
+		for i := range sv {
+			same = zz.And(same, sv[i] == pv[i])
+		}
+		zz.Assert(same, "same-values-in-order")
+	}
+	zz.Assert(zz.Iff(pb == nil, sb == nil), "blocks-nil-alike")
+	zz.Assert(zzSameBlocks(sb, pb), "same-blocks-and-line-numbering")
+	if len(pe) == len(se) {
+		for i := range se {
+			zz.Assert(se[i].LineNumber() == pe[i].LineNumber(), "same-error-line-number")
+			zz.Assert(se[i].LineText() == pe[i].LineText(), "same-error-line-text")
+			zz.Assert(se[i].Position() == pe[i].Position() && se[i].Length() == pe[i].Length(), "same-error-position")
+		}
+	}
+}
